@@ -27,8 +27,19 @@ fn one<A: Abc, P: Encode<A>>(rec: &mut Recorder, pli: &P, be: &str, arm: Option<
             0 => pli.encode(bytes).map(|e| e.iter().cloned().collect()),
             1 => pli.encode_raw(bytes),
             2 => {
-                let mut dst = vec![A::default_symbol(); bytes.len()];
-                pli.encode_into(bytes, &mut dst).map(|_| dst)
+                // the destination is a window at a varying offset (0..36 bytes, hence any alignment) inside a larger
+                // buffer, and the text is read from a window of another buffer: the caller chooses both slices
+                let n = bytes.len();
+                let off = (n * 5 + be.len() * 3 + bytes.first().copied().unwrap_or(0) as usize) % 37;
+                let soff = (n * 3 + 1) % 19;
+                let mut src = vec![b'#'; n + 64];
+                src[soff..soff + n].copy_from_slice(bytes);
+                let mut big = vec![A::default_symbol(); n + 80];
+                let r = pli.encode_into(&src[soff..soff + n], &mut big[off..off + n]);
+                // nothing outside the window may be written
+                let clean = big[..off].iter().chain(big[off + n..].iter()).all(|s| *s == A::default_symbol());
+                assert!(clean, "encode_into wrote outside the destination window");
+                r.map(|_| big[off..off + n].to_vec())
             }
             3 => EncodedSequence::<A>::encode(bytes).map(|e| e.iter().cloned().collect()),
             _ => EncodedSequence::<A>::from_str(std::str::from_utf8(bytes).unwrap()).map(|e| e.iter().cloned().collect()),
